@@ -302,6 +302,17 @@ func (w *World) specField(base *Val, name string, e *SExpr, env *SpecEnv) *Val {
 			}
 		}
 	}
+	if base.T.S.Kind == KUnint && base.GoT != nil {
+		// field of an opaque value of a dependency's struct type: the same uninterpreted function of the value that the
+		// executor uses for program reads (exec.selectPath)
+		if stt, ok := types.Unalias(base.GoT).Underlying().(*types.Struct); ok {
+			for i := 0; i < stt.NumFields(); i++ {
+				if f := stt.Field(i); f.Name() == name {
+					return tv(mk("fld_"+base.T.S.Name+"_"+f.Name(), w.sortOf(f.Type()), base.T), f.Type())
+				}
+			}
+		}
+	}
 	panic(fmt.Sprintf("spec: no field %s on %s (sort %s)", name, e.Args[0].String(), base.T.S))
 }
 
@@ -384,6 +395,22 @@ func (w *World) trSpecCall(e *SExpr, env *SpecEnv) *Val {
 			return w.trSpec(args[0], env.old.with(carry))
 		}
 		return w.trSpec(args[0], env.old)
+	case "zero":
+		// zero(T): the zero value of a type (e.g. zero(gjson.Result))
+		tn := ""
+		switch a := args[0]; a.Kind {
+		case "ident":
+			tn = a.Name
+		case "field":
+			if a.Args[0].Kind == "ident" {
+				tn = a.Args[0].Name + "." + a.Name
+			}
+		}
+		if tn == "" {
+			panic("spec: zero(T) needs a type name")
+		}
+		zs, zt := w.resolveSpecType(env.pkg, tn)
+		return tv((&Exec{w: w}).zeroOfSort(zs), zt)
 	case "ite":
 		c := w.trSpec(args[0], env)
 		a := w.trSpec(args[1], env)
